@@ -49,6 +49,10 @@ CHECKS = {
    text="TLC checks Correlation.tla (issue, handler, bounded outgoing queue, writer, client dispatch through the pending table, return) for OwnAnswer, HandlerOnce, PendingExact, NothingLost and the liveness property EveryCallReturns, and finds the id-format and the queue-drop defects; call/handler/return logs of concurrent library-client workloads on Streamable JSON / SSE / stateless / sessions-disabled, legacy SSE and stdio (child process) - also with request counters at 10^6-1, 2^31-1, 2^53-3 - are validated by TLC (TraceCorrelation); raw peers replay an id-class table against all six server modes (echoed id as a JSON value, exactly one answer frame per request, incl. 300 KB answers); a legacy stream reader is stalled while 180 x 256 KiB answers are produced.",
    note="Trusted: TLC, the mutex-ordered log, the child-process handler log for stdio (its entries are placed after their call; only their number is used). 'Any number of callers' is explored up to 4 clients x 6 goroutines.",
    technique="TLA+ model checking (TLC, incl. liveness) + TLC trace validation of recorded workloads + raw-peer id-table replay"),
+ "C03": dict(level="exploration", design="DESIGN.md §5 C03",
+   text="Core.tla (checked by TLC) enumerates the request classes - 9 methods x parameter classes x id kinds x handler outcomes - with the reactions the property admits; every class, plus envelope / path / syntax mutations, is concretised to bytes and sent by a raw peer to Streamable JSON / SSE / stateless / sessions-disabled, legacy SSE and stdio servers; every exchange (status and every frame, re-encoded as tagged trees) is validated by TLC against TraceWellFormed, i.e. against the message grammar MsgGrammar.tla (JSON-RPC envelope, exactly one of result/error, error object, result shape per method, content items, descriptors) and Core's reaction set, including 'never an empty or successful 2xx for an input that is not served'.",
+   note="Trusted: TLC, the reference peer and SSE parser, the hand-written grammar (subset of MCP 2025-03-26 the library uses). Where the statement is silent (version-less envelopes, exotic id types, junk params of list methods) both serving and refusing are admitted; a response may echo an exotic id of its own request.",
+   technique="TLA+ enumeration of request classes + replay on 6 server kinds + TLC validation of every exchange against a TLA+ message grammar"),
 }
 NA = {
  "C20": "data-race freedom is a statement about individual memory accesses under the Go memory model; an abstract state-machine specification has no notion of them (see DESIGN.md §6)",
